@@ -409,23 +409,23 @@ def run(ctx):
     full = {"nopt": 2, "accL": [[True, True], [True, True]], "accR": [[True, True], [True, True]]}
     mixed = {"nopt": 2, "accL": [[True, False], [True, True]], "accR": [[True, True], [False, True]]}
     for cfg in (full, mixed):
-        ts, st = explore(cfg, ctx.pick(2, 4), max_traces=ctx.pick(4000, 60000))
+        ts, st = explore(cfg, ctx.pick(2, 3), max_traces=ctx.pick(4000, 60000))
         traces += ts
         trunc = trunc or st["truncated"]
         ex["2opt"] = [ex.get("2opt", [0, 0])[0] + st["states"], ex.get("2opt", [0, 0])[1] + st["edges"]]
     ctx.exhaustive = not trunc
     ctx.extra["exhaustive_real"] = dict(one_option_all_16_policies=dict(max_requests=ctx.pick(3, 5), states=ex["1opt"][0], edges=ex["1opt"][1]),
-                                        two_options_2_policies=dict(max_requests=ctx.pick(2, 4), states=ex["2opt"][0], edges=ex["2opt"][1]))
+                                        two_options_2_policies=dict(max_requests=ctx.pick(2, 3), states=ex["2opt"][0], edges=ex["2opt"][1]))
     nex = len(traces)
     ctx.log("exhaustive interleavings on the real objects: %d maximal paths (%s)" % (nex, ex))
     pols2 = list(policies(2))
-    for i in range(ctx.pick(400, 30000)):
+    for i in range(ctx.pick(400, 10000)):
         cfg = ctx.rng.choice(pols2) if ctx.rng.random() < 0.7 else full
         traces.append(random_history(ctx, cfg, ctx.rng.randint(4, 40)))
     # (c) spec -> code
     behs = ctx.simulate("TelnetNegSim", "TelnetNegSim.cfg", num=ctx.pick(30, 1500), depth=16)
     ctx.rng.shuffle(behs)
-    behs = behs[:ctx.pick(150, 6000)]
+    behs = behs[:ctx.pick(150, 3000)]
     drift = 0
     for b in behs:
         ops = [["req", h["p"], h["k"], h["o"]] if h["e"] == "req" else ["recv", h["p"]] for h in b["hist"] if h["e"] != "quiet"]
